@@ -17,6 +17,12 @@ import DclabModel.DriveUtil
                                     bounding box)                                         → nan | notsep
     batch <η|-> x d δ η x d δ η …   `batchA` (η given) / `batchB` (`-`) on the whole table
                                                                                 → E,nan,E,…
+  LUT environment (`Env`, `stepOp`, `loadLut`); a table is represented by a token:
+    env reset <n>                   empty files/registry, built-in ids 0..n-1 (tokens 1000+i) → ok
+    env write <path> <token>        (re)write the file                                      → ok
+    env reg <id> <path>             `register_lut`                                  → ok | err:value
+    env dereg <id>                  `EXTERNAL_LUTS.pop`                                     → ok
+    env load path <p> | id <i>      token of the table a call would load now     → token | err:value
 -/
 open DclabModel.Emod DclabModel.DriveUtil
 
@@ -33,6 +39,7 @@ structure D where
   s : Setup := { L := 1, Q := 1, px := 0 }
   /-- hull edges whose `allOnSide` has been evaluated already -/
   sides : List ((P2 × P2) × Bool) := []
+  env : Env := ⟨[], [], []⟩
 
 def showOpt (nanword : String) : Option Rat → String
   | some r => showRat r
@@ -92,8 +99,48 @@ def handleQ (d : D) (x dd del eta : Rat) (mode : List String) : D × String :=
     | _, _, _, _ => (d, "bad-op")
   | _ => (d, "bad-op")
 
+def tokEntry (tok : Nat) : Entry := ⟨[((tok : Rat), 0, 0)], { L0 := 1, Q0 := 1, eta0 := 1, k := 2 }, []⟩
+
+def showOut : Out → String
+  | .ok => "ok"
+  | .errValue => "err:value"
+  | .res _ => "res"
+
+def envOp (d : D) (op : Op) : D × String :=
+  let (env', o) := stepOp d.env op
+  ({ d with env := env' }, showOut o)
+
+def showLoad (d : D) (r : LutRef) : String :=
+  match loadLut d.env r with
+  | some e => match e.lut with
+    | v :: _ => showRat v.1
+    | [] => "empty"
+  | none => "err:value"
+
+def handleEnv (d : D) : List String → D × String
+  | ["reset", n] => match n.toNat? with
+    | some n => ({ d with env := ⟨[], [], (List.range n).map fun i => (i, tokEntry (1000 + i))⟩ }, "ok")
+    | none => (d, "bad-op")
+  | ["write", p, t] => match p.toNat?, t.toNat? with
+    | some p, some t => envOp d (.write p (tokEntry t))
+    | _, _ => (d, "bad-op")
+  | ["reg", i, p] => match i.toNat?, p.toNat? with
+    | some i, some p => envOp d (.register i p)
+    | _, _ => (d, "bad-op")
+  | ["dereg", i] => match i.toNat? with
+    | some i => envOp d (.deregister i)
+    | none => (d, "bad-op")
+  | ["load", "path", p] => match p.toNat? with
+    | some p => (d, showLoad d (.path p))
+    | none => (d, "bad-op")
+  | ["load", "id", i] => match i.toNat? with
+    | some i => (d, showLoad d (.named i))
+    | none => (d, "bad-op")
+  | _ => (d, "bad-op")
+
 def handle (d : D) (line : String) : D × String :=
   match words line with
+  | "env" :: rest => handleEnv d rest
   | ["lut", l0, q0, e0, k] =>
     match parseRat? l0, parseRat? q0, parseRat? e0, k.toNat? with
     | some l0, some q0, some e0, some k =>
